@@ -142,6 +142,64 @@ func newMemPipe(a, b string) (*memConn, *memConn) {
 	return &memConn{rd: ba, wr: ab, local: memAddr(a), remote: memAddr(b)}, &memConn{rd: ab, wr: ba, local: memAddr(b), remote: memAddr(a)}
 }
 
+// gatedConn lets a byte budget through once armed and then stalls every further Write (a dead link whose
+// buffers are full) until released.
+type gatedConn struct {
+	*memConn
+	mu      sync.Mutex
+	armed   bool
+	budget  int
+	blocked chan struct{} // closed when the first Write stalls
+	release chan struct{} // closed to fail the stalled Writes
+	once    sync.Once
+	wdl     time.Time
+}
+
+func newGatedConn(c *memConn) *gatedConn {
+	return &gatedConn{memConn: c, blocked: make(chan struct{}), release: make(chan struct{})}
+}
+
+func (g *gatedConn) arm(budget int) {
+	g.mu.Lock()
+	g.armed, g.budget = true, budget
+	g.mu.Unlock()
+}
+
+func (g *gatedConn) Write(b []byte) (int, error) {
+	g.mu.Lock()
+	stall := g.armed && g.budget <= 0
+	if g.armed && !stall {
+		g.budget -= len(b)
+	}
+	g.mu.Unlock()
+	if stall {
+		g.once.Do(func() { close(g.blocked) })
+		g.mu.Lock()
+		dl := g.wdl
+		g.mu.Unlock()
+		var timer <-chan time.Time
+		if !dl.IsZero() {
+			timer = time.After(time.Until(dl))
+		}
+		select {
+		case <-g.release:
+			return 0, io.ErrClosedPipe
+		case <-timer:
+			return 0, os.ErrDeadlineExceeded // what a TCP write on a dead link returns when the write deadline passes
+		}
+	}
+	return g.memConn.Write(b)
+}
+
+func (g *gatedConn) SetWriteDeadline(t time.Time) error {
+	g.mu.Lock()
+	g.wdl = t
+	g.mu.Unlock()
+	return nil
+}
+
+func (g *gatedConn) SetDeadline(t time.Time) error { return g.SetWriteDeadline(t) }
+
 func (c *memConn) Read(b []byte) (int, error)         { return c.rd.read(b) }
 func (c *memConn) Write(b []byte) (int, error)        { return c.wr.write(b) }
 func (c *memConn) Close() error                       { c.rd.close(); c.wr.close(); return nil }
@@ -281,12 +339,17 @@ var (
 )
 
 func newNode() *node {
-	nodeMu.Lock() // p2p.New writes package-level timeouts; build nodes one at a time
-	defer nodeMu.Unlock()
 	priv, err := crypto.NewBLS12381PrivateKey()
 	if err != nil {
 		panic(err)
 	}
+	return newNodeWithKey(priv)
+}
+
+// newNodeWithKey: a fresh P2P instance for an existing identity (a node that lost its state and came back).
+func newNodeWithKey(priv crypto.PrivateKeyI) *node {
+	nodeMu.Lock() // p2p.New writes package-level timeouts; build nodes one at a time
+	defer nodeMu.Unlock()
 	cfg := lib.DefaultConfig()
 	dir, e := os.MkdirTemp(scratchDir, "node")
 	if e != nil {
